@@ -329,6 +329,8 @@ pub trait PuppetCtl: Send + Sync {
     fn state(&self, k: usize) -> Option<SubState>;
     fn item_val(&self, i: usize) -> Val;
     fn err_id_of(&self, k: usize) -> i32;
+    /// forget every sink handle (breaks the source <-> sink reference cycles at the end of a case)
+    fn teardown(&self);
 }
 
 impl<T: Clone + Send + Sync + 'static> PuppetCtl for Arc<Puppet<T>> {
@@ -373,5 +375,8 @@ impl<T: Clone + Send + Sync + 'static> PuppetCtl for Arc<Puppet<T>> {
     }
     fn err_id_of(&self, k: usize) -> i32 {
         self.sub(k).map(|s| s.err_id).unwrap_or(-1)
+    }
+    fn teardown(&self) {
+        self.subs.lock().unwrap().clear();
     }
 }
